@@ -1340,6 +1340,13 @@ func emit(b *bytes.Buffer, all []*pkgInfo) {
 		}
 	}
 	fmt.Fprintf(b, "/-- top-level statements of every function that returns objects to a pool -/\ndef putFuncs : List PutFunc := [\n  %s]\n\n", strings.Join(pfs, ",\n  "))
+	var drs []string
+	for _, p := range all {
+		for _, d := range p.deferredReleases() {
+			drs = append(drs, fmt.Sprintf("{ fn := %s, list := %s, pos := %s, args := %s, deleted := %v, deletionPos := %s }", q(d.fn), q(d.list), q(d.pos), qs(d.args), d.deletionPos != "", q(d.deletionPos)))
+		}
+	}
+	fmt.Fprintf(b, "/-- sites that put objects on a local list released at the end of the function, and the statement\nafter them that takes the same elements out of their container -/\ndef deferredReleases : List DeferredRelease := [\n  %s]\n\n", strings.Join(drs, ",\n  "))
 	var pf []string
 	for _, p := range all {
 		var ks []string
